@@ -70,6 +70,18 @@ CLAIMS = {
    note=COMMON_NOTE + NUM_NOTE + "validate on non-finite fields is modelled on classified bit patterns (driver), str::parse::<uN> by an "
         "explicit grammar; both are compared, not proved against Rust's std.",
    ref="DESIGN.md §5 C18"),
+
+ "C17": dict(cat="proof", tech="Lean 4 invariant proofs (CollapseTimeframe, HeikinAshi in any ordered field; Renko in Q) + per-step differential replay with state-adaptive boundary inputs",
+   text="Theorems: CollapseTimeframe emits exactly at multiples of the period the aggregate (first open, max high, min low, last "
+        "close, summed volume) of the last `period` inputs, for every period and stream; HeikinAshi maps valid candles to valid "
+        "candles; Renko in exact arithmetic forms >= 1 brick exactly when the boundary is reached, keeps a consistent state, leaves "
+        "no pending brick after a rising emission, and its blocks are contiguous, equally sized relative to the base line, one "
+        "direction, carrying the consumed volume. The floating-point Renko is driven with prices exactly on and one ulp around the "
+        "boundaries taken from its own serialized state; every step is tied to one exact model step and the emitted blocks are "
+        "checked against the property.",
+   note=COMMON_NOTE + NUM_NOTE + "PARTIAL: Renko's falling branch is validated, its theorem is not written; 'never panics on a "
+        "boundary price' is a floating-point fact shown by the adaptive differential run, not by a theorem.",
+   ref="DESIGN.md §5 C17"),
 }
 
 checks = []
